@@ -333,6 +333,21 @@ def impl(case):
                 with contextlib.redirect_stdout(io.StringIO()):
                     step["ret"] = bool(audit.summarize_status(contests=contests) if case.get("call") == "kw"
                                        else audit.summarize_status(contests))
+                # the same evidence judged at OTHER risk limits: shallow clones of the contests (copy.copy: they share
+                # the Assertion objects, whose `.contest` still points at the original) with the limits rotated
+                # among the contests / halved; a contest is judged by the limit of the Contest object in the dict
+                try:
+                    ids = list(contests)
+                    lims = [float(contests[c].risk_limit) for c in ids]
+                    alt = (lims[1:] + lims[:1]) if len(set(lims)) > 1 else [l / 2 for l in lims]
+                    clones = {}
+                    for c, l in zip(ids, alt):
+                        clones[c] = copy.copy(contests[c])
+                        clones[c].risk_limit = l
+                    with contextlib.redirect_stdout(io.StringIO()):
+                        step["_clone"] = {"limits": alt, "ret": bool(audit.summarize_status(clones))}
+                except Exception as e:  # noqa
+                    step["_clone"] = {"err": err_kind(e)}
             elif op["op"] == "check":
                 step["ret"] = (audit.check_audit_parameters(contests=contests) if case.get("call") == "kw"
                                else audit.check_audit_parameters(contests))
@@ -584,6 +599,13 @@ def oracle_c09(case, ir):
                                         f"contest's risk limit: (contest, assertion, p, limit) = {rows[:8]}"}
                     return {"what": f"{w}: reported COMPLETE although these assertions are above their own contest's "
                                     f"risk limit (or NaN): (contest, assertion, p, limit) = {bad[:8]}"}
+                cl = s.get("_clone")
+                if cl and "ret" in cl and all(L >= 0 for L in cl["limits"]):
+                    want2 = all(_f(a["p_value"]) <= L for c, L in zip(st, cl["limits"]) for a in c["assertions"])
+                    if cl["ret"] != want2:
+                        return {"what": f"{w}: the same contests cloned (copy.copy) with risk limits {cl['limits']} are reported "
+                                        f"{'COMPLETE' if cl['ret'] else 'INCOMPLETE'}; p-values "
+                                        f"{[(c['id'], a['name'], a['p_value']) for c in st for a in c['assertions']][:8]}"}
         elif s["op"] == "check":
             if st != prev:
                 return {"what": f"{w}: check_audit_parameters changed the state"}
